@@ -9,6 +9,9 @@ the flush has to get right: texts mixing single-width, double-width and zero-wid
 ("cutters": char, erase, skip, line segments, masks, clips) aimed at columns *inside* texts already drawn, including
 the two halves of double-width characters; erase runs followed and not followed by content (the moveend choice), runs
 ending at the last column; adjacent line cells with equal and different pens (batching); every pen attribute.
+A second stream of *wide* buffers (90-300 columns) carries line runs of more than 85 cells (one pen, a pen change and a
+change to an equivalent pen mid-run), texts of more than 256 bytes and long erase runs: the growth paths of the flush's
+scratch buffer.
 Terminal: window at least as large as the buffer (sometimes smaller or larger), both cursor oracles and mixed ones,
 direct print and print through write_str, with and without a prior pen, sentinel pattern from a seed.
 exhaustive: every program of <= 3 operations over a reduced alphabet on a 2x6 buffer x {oracle stay, oracle move} x
@@ -297,6 +300,83 @@ def random_history():
     return h.ops
 
 
+def wide_history():
+    """A wide buffer (90-300 columns, 1-2 lines): runs long enough to make every scratch buffer of the flush grow -
+    more than 85 adjacent line cells with equivalent pens (85 x 3 bytes fill the initial 256-byte rb->tmp), line runs
+    whose pen changes (or changes to an *equivalent* pen) in the middle, texts of more than 256 bytes (ASCII, 2-4 byte
+    and double-width characters), long erase runs, and mixtures with cutters in the middle of the long runs."""
+    L = rng.choice([1, 1, 2]); C = rng.choice([90, 100, 128, 150, 200, 257, 300])
+    sizes[f"{L}x{C}"] += 1
+    feat["wide_history"] += 1
+    h = Hist(L, C)
+    tc = C + rng.choice([0, 0, 1, 5])
+    oracle = rng.choice([0, 0x7fffffff, rng.getrandbits(31)])
+    pen = "NONE" if rng.random() < 0.4 else gen_pen(allow_null=False)
+    h.emit(f"term {L} {tc} {oracle} {1 if rng.random() < 0.3 else 0} {pen} {rng.randint(0, 9999)}")
+
+    def long_hline(line):
+        c1 = rng.randint(0, 3); c2 = C - 1 - rng.randint(0, 3)
+        st = rng.randint(1, 3)
+        k = rng.random()
+        if k < 0.35:
+            feat["long_line_one_pen"] += 1
+            h.emit(f"hline {line} {c1} {c2} {st} {rng.randint(0, 3)}")
+        elif k < 0.65:
+            feat["long_line_pen_change"] += 1
+            m = rng.randint(c1 + 1, c2 - 1)
+            h.emit(f"hline {line} {c1} {m} {st} {rng.randint(0, 3)}")
+            h.emit(f"setpen {gen_pen(allow_null=False)}")
+            h.emit(f"hline {line} {m + 1} {c2} {rng.randint(1, 3)} {rng.randint(0, 3)}")
+        else:
+            feat["long_line_equivalent_pen"] += 1      # b=0 / u=0 / fg=-1 are equivalent to absent: one batch
+            m = rng.randint(c1 + 1, c2 - 1)
+            h.emit("setpen -")
+            h.emit(f"hline {line} {c1} {m} {st} {rng.randint(0, 3)}")
+            h.emit(f"setpen {rng.choice(['b=0', 'u=0', 'fg=-1', 'i=0,rv=0', 'af=0'])}")
+            h.emit(f"hline {line} {m + 1} {c2} {st} {rng.randint(0, 3)}")
+
+    def long_text(line):
+        k = rng.random()
+        n = rng.randint(C - 20, C + 40)
+        if k < 0.35:
+            feat["long_text_ascii"] += 1
+            s = "".join(rng.choice(ASCII) for _ in range(max(n, 260)))
+        elif k < 0.7:
+            feat["long_text_multibyte"] += 1
+            s = "".join(rng.choice(NARROW + ["a", "z"]) for _ in range(n))
+        else:
+            feat["long_text_mixed"] += 1
+            s = "".join(rng.choice(WIDE) if rng.random() < 0.4 else rng.choice(COMBINING) if rng.random() < 0.15
+                        else rng.choice(NARROW + list(ASCII)) for _ in range(n))
+        kind = "textf_at" if rng.random() < 0.3 else "text_at"
+        h.emit(f"{kind} {line} {rng.choice([0, 0, 1, -3, -1])} {hexs(s.encode())}")
+
+    for line in range(L):
+        for _ in range(rng.choice([1, 1, 2])):
+            r = rng.random()
+            if r < 0.5: long_hline(line)
+            elif r < 0.8: long_text(line)
+            else:
+                feat["long_erase"] += 1
+                h.emit(f"erase_at {line} {rng.randint(0, 5)} {C - rng.randint(0, 10)}")
+        # cutters in the middle of the long runs
+        for _ in range(rng.choice([0, 1, 2, 3])):
+            c = rng.randint(1, C - 2)
+            r = rng.random()
+            if r < 0.3: h.emit(f"vline {line - 1} {line + 1} {c} {rng.randint(1, 3)} 0")
+            elif r < 0.5: h.emit(f"char_at {line} {c} {rng.choice(CHAR_W1)}")
+            elif r < 0.7: h.emit(f"erase_at {line} {c} {rng.choice([1, 2, 90])}")
+            elif r < 0.85: h.emit(f"skip_at {line} {c} {rng.choice([1, 3])}")
+            else: h.emit(f"mask {line} {c} 1 {rng.choice([1, 2])}")
+        if rng.random() < 0.3:
+            h.emit(f"setpen {gen_pen()}")
+    h.emit("flush")
+    if rng.random() < 0.4:
+        long_hline(rng.randint(0, L - 1))
+        h.emit("flush")
+    return h.ops
+
+
 def exhaustive():
     """Every program of <= 3 drawing operations over a reduced alphabet on a 2x6 buffer, four terminal configurations."""
     alpha = [
@@ -336,9 +416,12 @@ if a.tier == "exhaustive":
     info = {"histories": n, "exhaustive_bound": "all programs of <= 3 operations over a 13-operation alphabet on a 2x6 buffer x 4 terminal configurations, then flush"}
 else:
     N = 1300 if a.tier == "quick" else 8000
+    W = 150 if a.tier == "quick" else 600
     for _ in range(N):
         lines.extend(random_history())
-    info = {"histories": N}
+    for _ in range(W):
+        lines.extend(wide_history())
+    info = {"histories": N + W, "wide_histories": W}
 open(a.out, "w").write("\n".join(lines) + "\n")
 info.update({"ops": len(lines), "op_mix": dict(stats.most_common()), "text_kinds": dict(textkinds), "features": dict(feat),
              "buffer_sizes": dict(sizes.most_common(8))})
